@@ -112,6 +112,13 @@ def build_case(r, tier):
     if r.chance(0.25):
         rp = "R_"
         opts += ["--rp", rp]
+    lk = None
+    if r.chance(0.3):
+        # --lk: keep only these left fields (the join fields are kept anyway); "" makes the left file a row selector
+        lk = r.choice([["lid"], ["lid", "lv"], ["lv", "lid"], ["lid", "nosuch"], [], []])
+        if lk == [] and ul:
+            lk = ["lid"]  # with nothing but join fields an unpaired left record cannot be told from another
+        opts += ["--lk", ",".join(lk)]
     sorted_mode = r.chance(0.3)
     if sorted_mode:
         # -s requires both inputs sorted lexically by the join key; records lacking the key are left out of sorted cases
@@ -146,7 +153,7 @@ def build_case(r, tier):
         files["right2.dat"] = rtext(right[cut:])
         names.append("right2.dat")
     return {"kind": "join", "left": left, "right": right, "opts": opts, "sorted": sorted_mode, "lfmt": lfmt, "rfmt": rfmt, "files": files, "names": names,
-            "lname": lname, "rname": rname, "oname": oname, "two": two, "l2": l2, "r2": r2, "o2": o2, "np": np_, "ul": ul, "ur": ur, "ignore_empty": ign, "lp": lp, "rp": rp,
+            "lname": lname, "rname": rname, "oname": oname, "two": two, "l2": l2, "r2": r2, "o2": o2, "np": np_, "ul": ul, "ur": ur, "ignore_empty": ign, "lp": lp, "rp": rp, "lk": lk,
             "cseed": r.randint(1, 1 << 40), "nconf": 5 if tier == "quick" else 8, "sweep": tier != "quick" or r.chance(0.4)}
 
 
@@ -195,7 +202,8 @@ def expected_records(case):
     rn = [case["rname"]] + ([case["r2"]] if two else [])
     on = [case["oname"]] + ([case["o2"]] if two else [])
     lp, rp = case["lp"] or "", case["rp"] or ""
-    L = {dict(rec)["lid"]: rec for rec in case["left"]}
+    lk = case.get("lk")
+    L = {dict(rec)["lid"]: ([(k, v) for k, v in rec if k in ln or k in lk] if lk is not None else rec) for rec in case["left"]}
     R = {dict(rec)["rid"]: rec for rec in case["right"]}
 
     def unpaired(rec, jnames, prefix):
@@ -207,6 +215,8 @@ def expected_records(case):
         l, r = L[lid], R[rid]
         rec = [(o, dict(l)[nm]) for o, nm in zip(on, ln)] + [(lp + k, v) for k, v in l if k not in ln] + [(rp + k, v) for k, v in r if k not in rn]
         exp["p"][(lid, rid)] = rec
+        if lk == []:
+            exp.setdefault("rs", {})[rid] = rec  # row selector: the paired record carries no left id
     return exp
 
 
@@ -220,6 +230,8 @@ def content_ok(case, out, exp):
             want = exp["p"].get((lid, rid))
         elif lid is not None:
             want = exp["l"].get(lid)
+        elif rid in exp.get("rs", {}):
+            want = exp["rs"][rid]
         else:
             want = exp["r"].get(rid)
         if want is None:
@@ -295,6 +307,21 @@ def evaluate(case, chk):
             break
         got_p, got_ul, got_ur = cl
         exp_p = [] if case["np"] else want_p
+        exp_ur_rowsel = None
+        if case.get("lk") == []:
+            # row selector: a paired record consists of the join fields and the right record's other fields, once per
+            # matching left record - it carries the right id only
+            npairs = {}
+            for _, rid in want_p:
+                npairs[rid] = npairs.get(rid, 0) + 1
+            exp_ur_rowsel = []
+            for rec in case["right"]:
+                rid = dict(rec)["rid"]
+                if rid in npairs:
+                    exp_ur_rowsel += [rid] * (0 if case["np"] else npairs[rid])
+                elif case["ur"]:
+                    exp_ur_rowsel.append(rid)
+            exp_p = []
         if case["sorted"]:
             ok_p = sorted(got_p) == sorted(exp_p)
         else:
@@ -306,6 +333,8 @@ def evaluate(case, chk):
             break
         exp_ul = sorted(want_ul) if case["ul"] else []
         exp_ur = want_ur if case["ur"] else []
+        if exp_ur_rowsel is not None:
+            exp_ur = exp_ur_rowsel
         if sorted(got_ul) != exp_ul:
             vd.add("unpaired-left-wrong", config=cfgs_, want=exp_ul[:8], got=sorted(got_ul)[:8], want_n=len(exp_ul), got_n=len(got_ul))
             break
@@ -313,7 +342,7 @@ def evaluate(case, chk):
             vd.add("unpaired-right-wrong", config=cfgs_, want=exp_ur[:8], got=got_ur[:8], want_n=len(exp_ur), got_n=len(got_ur))
             break
         # field-name order of paired records: join fields under output name, then left rest, then right rest
-        if not case["np"] and out and not check_field_order(case, out):
+        if not case["np"] and out and case.get("lk") != [] and not check_field_order(case, out):
             vd.add("paired-field-order-wrong", config=cfgs_)
             break
         bad = content_ok(case, out, expected_records(case))
